@@ -127,6 +127,17 @@ SYSTEMS = {
     ),
     "h2": dict(species=[[1, 1]], coordinates=[[[0.0, 0.0, 0.0], [0.74, 0.0, 0.0]]]),
     "h2o": dict(species=[[8, 1, 1]], coordinates=[[[0.00, 0.00, 0.00], [0.96, 0.00, 0.00], [-0.24, 0.93, 0.00]]]),
+    "h2co": dict(
+        species=[[8, 6, 1, 1]],
+        coordinates=[[[-0.00104, -0.00028, 0.0], [1.20966, -0.00003, 0.0], [1.63293, 0.95572, 0.0], [1.82758, -0.85100, 0.0]]],
+    ),
+    "h2co_2": dict(
+        species=[[8, 6, 1, 1], [8, 6, 1, 1]],
+        coordinates=[
+            [[-0.00104, -0.00028, 0.0], [1.20966, -0.00003, 0.0], [1.63293, 0.95572, 0.0], [1.82758, -0.85100, 0.0]],
+            [[0.01, 0.0, 0.02], [1.23, 0.01, 0.0], [1.60, 0.97, 0.01], [1.85, -0.83, -0.02]],
+        ],
+    ),
     "three": dict(
         species=[[8, 1, 1], [6, 1, 1], [1, 1, 0]],
         coordinates=[
@@ -200,6 +211,10 @@ def build_md(case, prefix):
             xlp.update({"max_rank": 2, "err_threshold": 0.0, "T_el": 1500})
         cls = MDmod.XL_BOMD if eng == "xl" else MDmod.KSA_XL_BOMD
         md = cls(damp=case.get("damp", None), xl_bomd_params=xlp, **common)
+    elif eng == "fssh":
+        from seqm.NonadiabaticDynamics import SurfaceHoppingDynamics
+
+        md = SurfaceHoppingDynamics(initial_state=int(case.get("initial_state", 1)), damp=case.get("damp", None), **common)
     else:
         raise ValueError(eng)
     kw = dict(steps=int(case["steps"]), reuse_P=bool(case.get("reuse_P", True)), seed=int(case.get("seed", 7)))
@@ -229,7 +244,12 @@ def run_segment(case, workdir, seg, crash=None, trace_path=None, stub=True):
             md, mol, kw = build_md(case, prefix)
             md.run(mol, **kw)
         else:
-            MDmod.Molecular_Dynamics_Basic.run_from_checkpoint(prefix + ".restart.pt")
+            if case.get("engine") == "fssh":
+                from seqm.NonadiabaticDynamics import SurfaceHoppingDynamics
+
+                SurfaceHoppingDynamics.run_from_checkpoint(prefix + ".restart.pt")
+            else:
+                MDmod.Molecular_Dynamics_Basic.run_from_checkpoint(prefix + ".restart.pt")
     except _verif.VerifCrash as ex:
         status = "soft"
         err = str(ex)
@@ -300,7 +320,19 @@ def read_h5(path):
     return out
 
 
-def project_h5(path, ref):
+def _same(a, b, tol):
+    if tol is None:
+        return np.array_equal(a, b, equal_nan=True)
+    a = np.asarray(a)
+    b = np.asarray(b)
+    if a.shape != b.shape:
+        return False
+    if a.dtype.kind in "iu":
+        return np.array_equal(a, b)
+    return bool(np.allclose(a, b, rtol=tol, atol=tol, equal_nan=True))
+
+
+def project_h5(path, ref, tol=None, maxdev=None):
     """Project one HDF5 file to the model's row encoding, using reference rows for `valueOK`.
     ref = read_h5(reference file) or None (then values are compared with nothing: all OK)."""
     try:
@@ -330,9 +362,13 @@ def project_h5(path, ref):
                 else:
                     for p, v in st["data"].items():
                         rv = rst["data"].get(p)
-                        if rv is None or not np.array_equal(v[r], rv[k], equal_nan=True):
+                        if rv is None or not _same(v[r], rv[k], tol):
                             ok = False
                             break
+                        if maxdev is not None and tol is not None and np.asarray(v[r]).dtype.kind == "f":
+                            dv = np.abs(np.nan_to_num(np.asarray(v[r]) - np.asarray(rv[k])))
+                            if dv.size:
+                                maxdev[0] = max(maxdev[0], float(dv.max()))
             rows.append(lab if ok else -(lab + 2))
         proj[s] = rows
         shapes[s] = {p: list(v.shape) for p, v in st["data"].items()}
@@ -342,7 +378,22 @@ def project_h5(path, ref):
 _RE_XYZ_STEP = re.compile(r"^step:\s*(-?\d+)\s+E_total")
 
 
-def project_xyz(path, ref_frames=None):
+_RE_NUM = re.compile(r"[-+]?\d+\.\d+(?:[eE][-+]?\d+)?")
+
+
+def _frame_same(a, b, tol):
+    if a == b:
+        return True
+    if tol is None or b is None:
+        return False
+    na = [float(x) for x in _RE_NUM.findall(a)]
+    nb = [float(x) for x in _RE_NUM.findall(b)]
+    if len(na) != len(nb) or _RE_NUM.sub("#", a) != _RE_NUM.sub("#", b):
+        return False
+    return all(abs(x - y) <= max(tol, 1.5e-5) for x, y in zip(na, nb))
+
+
+def project_xyz(path, ref_frames=None, tol=None):
     """-> {"labels":[...], "torn": bool}; a frame is a count line, a comment line and count atom lines."""
     if not os.path.exists(path):
         return {"labels": [], "torn": False, "absent": True}
@@ -371,7 +422,7 @@ def project_xyz(path, ref_frames=None):
             break
         frame = "\n".join(lines[k : k + 2 + n])
         lab = int(m.group(1))
-        if ref_frames is not None and ref_frames.get(lab) != frame:
+        if ref_frames is not None and not _frame_same(frame, ref_frames.get(lab), tol):
             lab = -(lab + 2)
         labels.append(lab)
         k += 2 + n
@@ -427,10 +478,11 @@ def screen_labels(workdir, seg):
     return out
 
 
-def observe(workdir, molid, refdir=None):
+def observe(workdir, molid, refdir=None, tol=None):
     """Projection of everything on disk for all requested molecules."""
     prefix = os.path.join(workdir, "md")
     obs = {"mols": {}, "ckpt": project_ckpt(prefix)}
+    maxdev = [0.0]
     for m in molid:
         ref = None
         ref_frames = None
@@ -441,9 +493,10 @@ def observe(workdir, molid, refdir=None):
             ref_frames = xyz_frames(os.path.join(refdir, f"md.{m}.xyz"))
         h5p = f"{prefix}.{m}.h5"
         o = {}
-        o["h5"] = project_h5(h5p, ref) if os.path.exists(h5p) else {"ok": False, "error": "absent", "absent": True}
-        o["xyz"] = project_xyz(f"{prefix}.{m}.xyz", ref_frames)
+        o["h5"] = project_h5(h5p, ref, tol, maxdev) if os.path.exists(h5p) else {"ok": False, "error": "absent", "absent": True}
+        o["xyz"] = project_xyz(f"{prefix}.{m}.xyz", ref_frames, tol)
         obs["mols"][str(m)] = o
+    obs["maxdev"] = maxdev[0]
     obs["baks"] = sorted(f for f in os.listdir(workdir) if ".bak." in f)
     return obs
 
